@@ -188,7 +188,10 @@ func Main18(tier, replay string) {
 	run := core.NewRun("C18", tier)
 	scratch := scen.MkScratch("c18")
 	defer os.RemoveAll(scratch)
-	base, info := buildCases("quick") // depth <= 1; thorough adds nothing here but more position variants per case
+	// depth <= 1 under every position variant; pairs of perturbations (several diagnostics on one route, possibly
+	// the same one produced by two passes of the linker) under the plain variant: quick = pairs touching only
+	// annotations and route templates, thorough = every pair
+	base, info := buildCases("thorough")
 	vs := variants()
 	var cases []scen.Case
 	type meta struct {
@@ -202,9 +205,20 @@ func Main18(tier, replay string) {
 		if ci.Route.Sibling {
 			continue // C18 uses the plain perturbation space
 		}
+		if len(ci.Perts) == 2 && tier != "thorough" {
+			linkOnly := true
+			for _, p := range ci.Perts {
+				if !(strings.HasPrefix(p, "ann") || strings.HasPrefix(p, "route.") || strings.HasPrefix(p, "prefix.")) || strings.Contains(p, ".kind->") || strings.Contains(p, ".retarget->") {
+					linkOnly = false
+				}
+			}
+			if !linkOnly {
+				continue
+			}
+		}
 		for vi, v := range vs {
-			if tier != "thorough" && vi >= 2 && len(ci.Perts) > 0 && n%2 == 1 {
-				// quick: the heavier variants on every other perturbed case
+			if len(ci.Perts) == 2 && vi > 0 {
+				break
 			}
 			id := fmt.Sprintf("d%04d", n)
 			n++
@@ -452,7 +466,7 @@ func Main18(tier, replay string) {
 	run.Set("error_texts_checked", textChecked)
 	run.Sample(cases[1])
 	run.Sample(cases[len(cases)-1])
-	run.Bound = fmt.Sprintf("every diagnostic produced for 6 base routes x every single perturbation x %d position variants (%d scenarios); error text of every rejected plain scenario%s", len(vs), len(cases), map[string]string{"quick": " (every third)", "thorough": ""}[tier])
+	run.Bound = fmt.Sprintf("every diagnostic produced for 6 base routes x every single perturbation x %d position variants, plus pairs of perturbations in place (%d scenarios in all); error text of every rejected plain scenario%s", len(vs), len(cases), map[string]string{"quick": " (every third)", "thorough": ""}[tier])
 	run.Rule = "state = (base, perturbation, position variant); transition = one run of the real validator over a generated project; validated = diagnostics compared with an independent go/parser view (file, bounds, construct extent, value text, documented code/severity, duplicates)"
 	run.Assumptions = []string{"the value a diagnostic is about is the first single-quoted token of its message", "columns are compared in characters (runes)"}
 	os.RemoveAll(scratch)
